@@ -18,6 +18,12 @@ P - C_od v, step-halving orders against scipy's adaptive integrator, boundedness
 large steps on damped systems, massless DOF (quasi-static rows); call sequences on ONE solver object (def_nonlin
 re-defined between solves with new / shared / in-place-modified transform arrays or a mutated dict): every phase must
 satisfy the documented equations for the definition in force, equal a fresh object, and leave caller arrays unchanged.
+
+Second extension: the whole tsolve (rf rows, m = None, the dictionary of nonlinear terms via the model's defNonlin /
+getNonlin, sol.z via zOut) goes through one model call (`mxf`, `zout`); cd-as-force accelerations (`cdfx`) and get_f2x
+(`f2x`) too; an EXACT stream on dyadic inputs (bit for bit, exactness decided by a rational evaluation); oracles for the
+explicit bounds of the convergence theorems, the orders of v and a, the initial-acceleration defect, modal superposition,
+get_f2x as step sensitivity, the 2-DOF stability test problem and callbacks with an rf partition.
 """
 import json
 import math
@@ -31,7 +37,9 @@ from runner import Infra
 
 ID = "C17"
 LEAN_MODULES = ["PyYetiVerif.Props.C17", "PyYetiVerif.Props.C17Conv", "PyYetiVerif.Props.C17Stab",
-                "PyYetiVerif.Props.C17Cdf", "PyYetiVerif.Audit.C17"]
+                "PyYetiVerif.Props.C17Cdf", "PyYetiVerif.Props.C17Vel", "PyYetiVerif.Props.C17Modal",
+                "PyYetiVerif.Props.C17Energy", "PyYetiVerif.Props.C17Nonlin", "PyYetiVerif.Props.C17Opt",
+                "PyYetiVerif.Props.C17CdfConv", "PyYetiVerif.Audit.C17"]
 AUDIT_FILE = "PyYetiVerif/Audit/C17.lean"
 THEOREMS = [
     "PyYetiVerif.C17." + n
@@ -46,7 +54,23 @@ THEOREMS = [
         "newmark_stable_full newmark_stable_modal massless_rows_quasistatic rf_rows_static "
         # Props/C17Cdf.lean: alpha and the meaning of one cd-as-force step
         "cdf_alpha_identity cdf_alpha_transpose_solve cdf_alpha_transposed_variant_differs "
-        "cdf_step_is_exact_for_interpolated_damping_force cdf_run_is_unc_with_damping_force"
+        "cdf_step_is_exact_for_interpolated_damping_force cdf_run_is_unc_with_damping_force "
+        # Props/C17Vel.lean: what v and a are (end points included) and how fast they converge
+        "newmark_velocity_is_central_difference convK_eq_convE newmark_velocity_converges_scalar "
+        "newmark_accel_converges_scalar newmark_initial_accel_error_scalar newmark_initial_accel_first_order "
+        "newmark_initial_accel_defect newmark_last_step_converges_scalar "
+        # Props/C17Modal.lean, Props/C17Energy.lean: convergence for coupled (full) matrices
+        "newmark_modal_decomposition newmark_converges_modal_full newmark_velocity_converges_modal_full newmark_energy_stable_full "
+        "newmark_truncation_bound_full newmark_converges_energy_partial newmark_converges_energy "
+        "newmark_converges_energy_second_order "
+        # Props/C17Nonlin.lean: nonlinear terms, call sequences
+        "newmark_nonlin_is_documented nonlin_zero_is_linear nonlin_z_is_callback_output def_nonlin_call_sequence "
+        "def_nonlin_copies_at_call nonlin_rf_nonrf_part_is_run nonlin_rf_placement_irrelevant "
+        # Props/C17Opt.lean: options and entry points
+        "mNone_is_identity_mass mNone_scalar_coefficients rf_rows_static_full cdf_order0_is_order1_with_held_force "
+        "cdf_accel_eom cdf_f2x_is_step_sensitivity cdf_f2x_matrix "
+        # Props/C17CdfConv.lean: SolveCDF local error, error recursion, conditional convergence, 2-DOF stability
+        "cdf_run_is_sequence cdf_error_recursion cdf_converges_partial cdf_local_error cdf_stable_two_dof"
     ).split()
 ]
 TRUSTED = [
@@ -61,6 +85,11 @@ TRUSTED = [
     "the convergence theorems take the exact solution u as given, with four derivatives on the real line and bounds "
     "M3 >= |u(3)|, M4 >= |u(4)| on [0, T] (what f in C^2 provides); existence of u (Picard-Lindelof) is not proved",
     "step-halving reference: scipy.integrate.solve_ivp (DOP853, rtol 1e-11)",
+    "exact stream: Python fractions.Fraction re-evaluates the documented recurrence of one diagonal DOF operation by operation and "
+    "decides whether every intermediate value is a double; only then are implementation, Float model and rational history compared "
+    "bit for bit",
+    "the modal pair (Phi, Psi) of newmark_converges_modal_full and the constants mu, |M|, |B| of newmark_converges_energy are inputs "
+    "of the theorems (numpy computes them in the oracle)",
 ]
 RULE = (
     "a case is one (solver, m/b/k form [diag vector | diag matrix | full | m=None | singular mass | massless-undamped row], "
@@ -71,7 +100,9 @@ RULE = (
     "terms sharing one transform array / the same arrays overwritten in place / the caller's dict mutated / cleared, or "
     "only a new force and initial conditions), every phase compared with the model on the definition in force, with a "
     "fresh object, and for unchanged caller-owned arrays (m, b, k, force, d0, v0, T); cd-as-force objects are solved "
-    "three times; non-trivial = nt >= 3 (the "
+    "three times; exact cases: h a power of two, b and k multiples of 3, A a power of two, forces multiples of 3/8, nt <= 6 "
+    "(skipped and counted when the rational evaluation finds an intermediate value that is not a double); get_f2x cases: order 1, "
+    "random phi with 1-3 rows; nonlinear callbacks with one or two outputs; non-trivial = nt >= 3 (the "
     "loop runs) and the response is not identically zero; distinct by the full numeric input; branch histogram lists "
     "form, layout, rf, nonlinear kinds, massless, nt"
 )
@@ -83,23 +114,37 @@ ASSUMPTIONS = [
     "changing it WITHOUT calling def_nonlin again is not exercised (undocumented either way)",
     "nt >= 2 for SolveNewmark (nt = 1 raises IndexError in the code; modelled as an error, compared exactly)",
     "energy oracle: symmetric positive semidefinite M, K and B (Q^T diag Q with orthogonal Q), zero force",
+    "nonlinear terms together with an rf partition are exercised by four pinned cases with index-based callbacks; the oracle "
+    "judges leading and trailing rf rows by the documented start-up on the non-rf rows and by moving the rf row to the other end",
+    "proved-bound oracle: scalar systems with m in [0.5, 2], zeta <= 0.3, closed-form solution; h = T/50, T/200",
 ]
 PARTIAL = (
-    "partial: (1) global convergence is proved for the scalar test equation, hence DOF by DOF for diagonal (unc) systems "
-    "(newmark_converges_scalar: |d_n - u(t_n)| <= K1 |F(0) - K u0 - B v0| h + K2 h^2, every h > 0, explicit K1, K2; "
-    "second order iff the start-up is balanced) - for coupled (full) matrices only stability is proved "
-    "(newmark_stable_full, energy method, any symmetric psd M, K and any B with <Bx,x> >= 0) and the order is measured by "
-    "the step-halving correspondence/oracle; (2) the exact solution with four bounded derivatives is a hypothesis "
-    "(existence not proved), and only displacements are covered - the central-difference velocities/accelerations and "
-    "the systems with nonlinear terms have no convergence statement; (3) newmark_stable_modal takes the simultaneously "
-    "diagonalising pair (Phi, Psi) as given - the spectral theorem producing it from commuting M^-1 K, M^-1 B is not "
-    "proved (newmark_stable_full does not need it); for full matrices boundedness (energy non-increase) is proved, "
-    "strict decay is not; (4) SolveCDF: every step is proved to be SolveUnc's exact step for the force P - C_od v taken "
-    "linearly over the step (cdf_step_is_exact_for_interpolated_damping_force, cdf_run_is_unc_with_damping_force), so "
-    "its error IS the interpolation error of that force; that this error is O(h^2) and the global convergence to the "
-    "coupled solution are measured (step-halving), not proved; (5) the tie of the array-level matSys / alphaMat to the "
-    "linear maps of the theorems is the hypothesis 'solve inverts A' (measured by the correspondence); round-off is "
-    "outside the theorems"
+    "partial: (1) displacements of COUPLED systems now converge by proof in two ways: modally damped systems through the modal "
+    "transformation (newmark_modal_decomposition, newmark_converges_modal_full: error <= sum_i |Phi e_i| (K1_i |delta_i| h + K2_i h^2) with "
+    "the scalar constants; the diagonalising pair (Phi, Psi) is an INPUT - the spectral theorem producing it from symmetric "
+    "positive definite M, symmetric K and a damping diagonalised by the same modes is not proved), and ANY symmetric M >= mu^2 > 0, "
+    "symmetric K >= 0 and B with <Bx,x> >= 0 by the energy method (newmark_converges_energy: truncation and start-up bounds "
+    "discharged from four bounded derivatives, constants from mu, |M|, |B|; second order iff F(0) = K u0 + B v0); the velocities and "
+    "accelerations are proved for the scalar equation (newmark_velocity_converges_scalar, newmark_accel_converges_scalar, "
+    "newmark_last_step_converges_scalar, newmark_initial_accel_*: interior and last step keep the order of the displacements, "
+    "v_0 is exact, a_0 is first order when balanced and NOT consistent when unbalanced (a_0 -> u''(0)/3, newmark_initial_accel_defect), "
+    "a_1 does not converge when unbalanced) - for coupled, modally damped matrices the velocities are lifted "
+    "(newmark_velocity_converges_modal_full), the accelerations and the general-damping (energy) case of v, a are not stated; a singular mass "
+    "(massless rows) is outside the convergence theorems (mu > 0): stability and the quasi-static rows only; (2) the exact solution "
+    "with four bounded derivatives is a hypothesis (existence not proved); (3) nonlinear terms: the recurrence with the lagged N "
+    "is proved for arbitrary callbacks (newmark_nonlin_is_documented) and for arbitrary call sequences on one object "
+    "(def_nonlin_call_sequence); CONVERGENCE with nonlinear terms is not proved (the explicit term makes the scheme conditionally "
+    "stable) and not measured; with an rf partition (any placement) the non-rf part is `run` on the non-rf partition "
+    "(nonlin_rf_nonrf_part_is_run, nonlin_rf_placement_irrelevant; finding F63, repaired in /repo 62d98b6, stays as a regression "
+    "guard of the oracle); (4) SolveCDF: per-step force error O(h^2) "
+    "(cdf_local_error) and the error recursion (cdf_error_recursion) are proved, global second order only CONDITIONALLY "
+    "(cdf_converges_partial: hypotheses = a stability constant of the homogeneous step in some seminorm and one-step residuals "
+    "<= C h^3); that the O(h^2) force error gives an O(h^3) residual needs the Duhamel kernel of the exact uncoupled step (C01's "
+    "coefficients) and is NOT proved; stability of the lag is proved for the 2-DOF velocity test problem only "
+    "(cdf_stable_two_dof: stable iff |c| < b; its coefficient hypotheses are measured on get_su_coef's values) - otherwise the "
+    "step-halving streams measure it; (5) the tie of the array-level matSys / alphaMat / tsolveRf / cdfGetF2x to the linear maps of the "
+    "theorems is the hypothesis 'solve inverts A' (measured by the correspondence); the row scatter of tsolveRf has no theorem "
+    "beyond rf_rows_static_full; round-off is outside the theorems (exact where every operation is exact: the dyadic stream)"
 )
 MANIFEST = {
     "level_text": "Proof (Lean 4, kernel-checked, standard axioms only) about one polymorphic transcription of "
@@ -127,14 +172,38 @@ MANIFEST = {
     "damping it is SolveUnc's (`cdf_diag_eq_unc`). The same definitions run at Float and are compared with SolveNewmark / "
     "SolveCDF / SolveUnc(cd_as_force) histories (diag, full, C and Fortran layout, singular mass, massless undamped rows, "
     "rf, nonlinear callbacks, symmetric and non-symmetric coupled damping, alpha, step-halving triples, call sequences "
-    "on re-used solver objects with re-defined / in-place-modified nonlinear terms). Partial: "
-    "convergence for coupled matrices, of velocities/accelerations, with nonlinear terms, and of SolveCDF to the coupled "
-    "solution is measured (step-halving orders), not proved.",
+    "on re-used solver objects with re-defined / in-place-modified nonlinear terms). SECOND EXTENSION: what `v` and `a` "
+    "are, end points included - v_0 = v0, centred differences everywhere, the last step through the extrapolated De, no "
+    "one-sided formula (`newmark_velocity_is_central_difference`) - and their convergence for the scalar equation with explicit "
+    "constants (`newmark_velocity_converges_scalar`, `newmark_accel_converges_scalar`, `newmark_last_step_converges_scalar`, "
+    "`newmark_initial_accel_error_scalar`, `newmark_initial_accel_first_order`, `newmark_initial_accel_defect`: a_0 -> u''(0)/3 when "
+    "unbalanced); COUPLED convergence: the coupled run is Phi times the scalar runs (`newmark_modal_decomposition`) hence "
+    "`newmark_converges_modal_full` / `newmark_velocity_converges_modal_full`, and for any symmetric M >= mu^2, K >= 0, <Bx,x> >= 0 the energy method with forcing "
+    "(`newmark_energy_stable_full`), vector Taylor truncation bound (`newmark_truncation_bound_full`), "
+    "`newmark_converges_energy_partial` (consistency as hypotheses) and `newmark_converges_energy` / "
+    "`newmark_converges_energy_second_order` (hypotheses discharged from four bounded derivatives); nonlinear terms: `def_nonlin` "
+    "/ `_get_nonlin` / `sol.z` are in the model (`defNonlin`, `getNonlin`, `zOut`), `newmark_nonlin_is_documented` (N_{n+1} evaluated "
+    "explicitly on [u_{n+1}, ..., u_-1], pre-multiplication undone by A), `nonlin_zero_is_linear`, `nonlin_z_is_callback_output`, call "
+    "sequences on one object (`def_nonlin_call_sequence`, `def_nonlin_copies_at_call`: values at the time of the call, no cache by "
+    "object identity), with an rf partition in ANY placement the non-rf part is the same `run` with the callbacks on the non-rf rows "
+    "at every step (`nonlin_rf_nonrf_part_is_run`, `nonlin_rf_placement_irrelevant`; F63 repaired in /repo 62d98b6); options: `mNone_is_identity_mass`, `mNone_scalar_coefficients`, `rf_rows_static_full`, "
+    "`cdf_order0_is_order1_with_held_force`, `cdf_accel_eom` (full damping, with mass and m = None), `cdf_f2x_is_step_sensitivity`, "
+    "`cdf_f2x_matrix`; SolveCDF: `cdf_run_is_sequence`, `cdf_local_error` (force error <= (M_P + c_od M3) h^2 per step), "
+    "`cdf_error_recursion`, `cdf_converges_partial` (stability + O(h^3) residual => T e^{cT} C h^2), `cdf_stable_two_dof` (the lag is "
+    "stable iff the 2-DOF damping matrix is diagonally dominant). Tie added: the WHOLE tsolve on all rows incl. the rf partition, "
+    "m = None and the dictionary of nonlinear terms runs through the model (`tsolveRf`, `matSysOpt`, `defNonlin`); sol.z through `zOut`; "
+    "cd-as-force accelerations and get_f2x through the model; an EXACT stream: on dyadic inputs where no operation rounds "
+    "(decided by an independent rational evaluation) model, implementation and rational history agree bit for bit. Partial: "
+    "accelerations for coupled matrices (and v, a under general damping) not stated; convergence with nonlinear terms not proved; SolveCDF global "
+    "convergence conditional (stability constant and O(h^3) residual are hypotheses).",
     "level_note": "Trusted: Lean kernel; propext, Classical.choice, Quot.sound; the Python harness; LU solves modelled "
     "by their specification; get_su_coef coefficients taken from the solver (C01); the exact solution with four bounded "
     "derivatives is a hypothesis of the convergence theorems; round-off outside the theorems. Only tied / measured: the "
     "observed step-halving ratios (about 4 balanced, about 2 unbalanced; recorded for model and implementation), energy "
-    "non-increase and boundedness of the free response on the real code, SolveCDF orders.",
+    "non-increase and boundedness of the free response on the real code, SolveCDF orders; the explicit bounds of the convergence "
+    "theorems (d, v, a, end points) are evaluated on a closed-form problem and the real code's errors must lie below them; orders "
+    "of v and a; the modal superposition, get_f2x as step sensitivity and the 2-DOF amplification factors on the API; the coefficient "
+    "hypotheses of cdf_stable_two_dof on get_su_coef's values.",
     "technique": "Lean 4 proof (ring identities, Schur-Cohn via nlinarith, induction over the loop, discrete energy "
     "method, Taylor remainders via Mathlib's mean-value fencing lemma, inner-product-space energy for full matrices) on a "
     "polymorphic model + numeric differential correspondence with SolveNewmark/SolveCDF incl. step-halving triples + "
@@ -142,7 +211,10 @@ MANIFEST = {
 }
 
 TOL = 1e-9
-KINDS = {0: "cubic", 1: "gap", 2: "nasvel", 3: "index"}
+# found by this check, repaired in /repo (fix: commit 62d98b6): with an rf partition `_init_dva` handed the nonlinear-force
+# functions the full-size array at step 0, the loop the non-rf rows; kept as a regression guard (oracle_nonlin_rf)
+FIXED_F63 = "newmark-nonlin-with-leading-rf-callback-sees-full-size-array-at-step-0"
+KINDS = {0: "cubic", 1: "gap", 2: "nasvel", 3: "index", 4: "pair"}
 
 warnings.filterwarnings("ignore")
 
@@ -236,7 +308,7 @@ def gen_newmark(rng, forced=None):
     v0 = None if rng.random() < 0.3 else rng.standard_normal(n) * np.sqrt(np.where(m > 0, k / np.where(m > 0, m, 1), 1.0))
     spec = {"solver": "newmark", "h": h, "form": str(form), "tags": tags, "mnone": bool(mnone)}
     rf = None
-    if not terms_on and n >= 2 and forced.get("rf", rng.random() < 0.3):
+    if (not terms_on or forced.get("rf_terms")) and n >= 2 and forced.get("rf", rng.random() < 0.3):
         cnt = int(rng.integers(1, n + (1 if rng.random() < 0.15 else 0)))
         rf = sorted(int(v) for v in rng.choice(n, size=min(cnt, n), replace=False))
         rf = [i for i in rf if k[i] != 0.0] or None
@@ -253,17 +325,32 @@ def gen_newmark(rng, forced=None):
     else:
         spec.update(m=None if mnone else m.tolist(), b=b.tolist(), k=k.tolist())
     terms = []
-    if terms_on:
+    if terms_on and rf and len(rf) < n:
+        # nonlinear terms WITH an rf partition: transforms and callback indices are in the numbering of the non-rf rows
+        nn_ = n - len(rf)
+        nonrf_ = [i for i in range(n) if i not in rf]
         for _ in range(int(rng.integers(1, 3))):
-            kind = int(forced.get("kind", rng.integers(0, 4)))
+            kind = int(rng.choice([0, 3]))
+            p = int(rng.integers(0, nn_))
+            kk = float(k[nonrf_[p]] if k[nonrf_[p]] > 0 else m[nonrf_[p]] / h / h)
+            T = rng.standard_normal(nn_) * (rng.random(nn_) < 0.7)
+            if not T.any():
+                T[p] = 1.0
+            terms.append({"kind": kind, "p": p, "q": p, "c": {0: 0.3 * kk, 3: 0.02 * kk / nt}[kind], "g": {0: 0.0, 3: 0.1 * kk}[kind], "T": T.tolist()})
+    elif terms_on and not rf:
+        for _ in range(int(rng.integers(1, 3))):
+            kind = int(forced.get("kind", rng.integers(0, 5)))
             p = int(rng.integers(0, n))
             q = int(rng.integers(0, n))
             kk = float(k[p] if k[p] > 0 else m[p] / h / h)
-            c = {0: 0.3 * kk, 1: kk, 2: 0.1 * float(m[p]) if m[p] > 0 else 0.01 * kk * h * h, 3: 0.02 * kk / nt}[kind]
-            g = {0: 0.0, 1: 0.2, 2: 0.0, 3: 0.1 * kk}[kind]
+            c = {0: 0.3 * kk, 1: kk, 2: 0.1 * float(m[p]) if m[p] > 0 else 0.01 * kk * h * h, 3: 0.02 * kk / nt, 4: 0.2 * kk}[kind]
+            g = {0: 0.0, 1: 0.2, 2: 0.0, 3: 0.1 * kk, 4: 0.05 * kk * h}[kind]
             T = rng.standard_normal(n) * (rng.random(n) < 0.7)
             if not T.any():
                 T[p] = 1.0
+            if kind == 4:
+                # two callback outputs: the transform has two columns
+                T = np.column_stack([T, rng.standard_normal(n) * (rng.random(n) < 0.7)])
             terms.append({"kind": kind, "p": p, "q": q, "c": c, "g": g, "T": T.tolist()})
     spec.update(F=F.tolist(), d0=None if d0 is None else d0.tolist(), v0=None if v0 is None else v0.tolist(),
                 rf=rf, terms=terms, nt=nt, n=n, layout=str(rng.choice(["C", "F"])))
@@ -496,8 +583,10 @@ def _zfun(t):
         elif kind == 2:
             w = (x[p] - xp[p]) / h
             z = c * (w * abs(w))
-        else:
+        elif kind == 3:
             z = c * x[p] * float(j) + g
+        else:
+            return np.array([c * x[p], g * ((x[p] - xp[p]) / h)])
         return np.array([z])
 
     return f
@@ -511,7 +600,7 @@ def run_newmark(spec):
         lay = spec.get("layout", "C")
         ts = ode.SolveNewmark(_arr(spec["m"], lay), _arr(spec["b"], lay), _arr(spec["k"], lay), spec["h"], rf=spec.get("rf"))
         if spec.get("terms"):
-            ts.def_nonlin({"t%d" % i: (_zfun(t), np.array(t["T"], float).reshape(-1, 1))
+            ts.def_nonlin({"t%d" % i: (_zfun(t), np.array(t["T"], float).reshape(spec["n"] - len(spec.get("rf") or []), -1))
                            for i, t in enumerate(spec["terms"])})
         sol = ts.tsolve(np.array(spec["F"], float), _arr(spec["d0"]), _arr(spec["v0"]))
     except IndexError:
@@ -616,38 +705,80 @@ def _cmp(ctx, stream, spec, name, impl, model, scale):
 
 
 def _newmark_requests(spec):
-    """protocol lines for one newmark spec: ('mx' line, ['sc' lines per non-rf DOF] or [], 'rf' handled in python)"""
+    """protocol lines for one newmark spec: the `mxf` line (whole tsolve on all n rows: m / m=None, rf partition, nonlinear
+    terms through the model's def_nonlin), then one `sc` line per non-rf DOF of a diagonal linear system"""
     M, B, K = _mats(spec)
     nonrf, rf = _parts(spec)
     n, nt, h = spec["n"], spec["nt"], spec["h"]
     F = np.array(spec["F"], float).reshape(n, -1)
     d0 = np.zeros(n) if spec["d0"] is None else np.array(spec["d0"], float)
     v0 = np.zeros(n) if spec["v0"] is None else np.array(spec["v0"], float)
-    ix = np.ix_(nonrf, nonrf)
+    terms = spec.get("terms") or []
     nn = len(nonrf)
-    lines = []
-    if nn:
-        terms = spec.get("terms") or []
-        parts = ["mx", str(nn), str(F.shape[1]), _bits(h), _bl(M[ix]), _bl(B[ix]), _bl(K[ix]), _bl(F[nonrf].T),
-                 _bl(d0[nonrf]), _bl(v0[nonrf]), str(len(terms))]
-        for t in terms:
-            parts += [str(t["kind"]), str(t["p"]), str(t["q"]), _bits(t["c"]), _bits(t["g"]), _bl(t["T"])]
-        lines.append(" ".join(parts))
-        if _is_diag(spec) and not terms:
-            for i in nonrf:
-                lines.append(" ".join(["sc", str(F.shape[1]), _bits(M[i, i]), _bits(B[i, i]), _bits(K[i, i]), _bits(h),
-                                       _bits(d0[i]), _bits(v0[i]), _bl(F[i])]))
+    parts = ["mxf", str(n), str(F.shape[1]), _bits(h)]
+    parts += ["0"] if spec["m"] is None else ["1", _bl(M)]
+    parts += [_bl(B), _bl(K), _bl(F.T), _bl(d0), _bl(v0), str(len(rf))] + [str(i) for i in rf] + [str(len(terms))]
+    for t in terms:
+        T = np.array(t["T"], float).reshape(nn, -1)
+        parts += [str(t["kind"]), str(t["p"]), str(t["q"]), _bits(t["c"]), _bits(t["g"]), str(T.shape[1]), _bl(T.T)]
+    lines = [" ".join(p for p in parts if p != "")]
+    if nn and _is_diag(spec) and not terms:
+        for i in nonrf:
+            lines.append(" ".join(["sc", str(F.shape[1]), _bits(M[i, i]), _bits(B[i, i]), _bits(K[i, i]), _bits(h),
+                                   _bits(d0[i]), _bits(v0[i]), _bl(F[i])]))
     return lines
 
 
-def _parse_hist(rep, n, nt):
+def _zout_request(spec, d):
+    """`zout` line: sol.z by the model's zOut on the displacement history `d` (n x nt, no rf partition)"""
+    n, nt, h = spec["n"], spec["nt"], spec["h"]
+    d0 = np.zeros(n) if spec["d0"] is None else np.array(spec["d0"], float)
+    v0 = np.zeros(n) if spec["v0"] is None else np.array(spec["v0"], float)
+    parts = ["zout", str(n), str(nt), _bits(h), _bl(d0 - v0 * h), _bl(np.asarray(d, float).T), str(len(spec["terms"]))]
+    for t in spec["terms"]:
+        T = np.array(t["T"], float).reshape(n, -1)
+        parts += [str(t["kind"]), str(t["p"]), str(t["q"]), _bits(t["c"]), _bits(t["g"]), str(T.shape[1]), _bl(T.T)]
+    return " ".join(parts)
+
+
+def _z_compare(ctx, stream, spec, zimpl, r):
+    zw, nt = _zwidths(spec), spec["nt"]
+    if not r.startswith("ok"):
+        ctx.disagree(stream, spec, "sol.z", r[:40])
+        return
+    x = _unbits(r.split()[1:])
+    if x.size != nt * sum(zw):
+        ctx.disagree(stream, spec, "sol.z", "bad-size")
+        return
+    at = 0
+    for i, rr in enumerate(zw):
+        zm = x[at: at + nt * rr].reshape(nt, rr).T
+        at += nt * rr
+        ctx.count("newmark:z-model")
+        zi = np.asarray(zimpl.get("t%d" % i, np.zeros((0, 0))), float)
+        _cmp(ctx, stream + "-" + KINDS[spec["terms"][i]["kind"]], spec, "z", zi, zm,
+             max(float(np.abs(zm).max()), float(np.abs(zi).max()) if zi.size else 0.0, 1e-300))
+
+
+def _zwidths(spec):
+    return [np.array(t["T"], float).reshape(len(_parts(spec)[0]), -1).shape[1] for t in spec.get("terms") or []]
+
+
+def _parse_hist(rep, n, nt, zw=()):
+    """-> (d, v, a) or (d, v, a, [z_i of shape (r_i, nt)]) when widths `zw` of the callback outputs are given"""
     if not rep.startswith("ok"):
         return rep
     x = _unbits(rep.split()[1:])
-    if x.size != 3 * n * nt:
+    if x.size != 3 * n * nt + nt * sum(zw):
         return "bad-size"
-    x = x.reshape(3, nt, n)
-    return x[0].T, x[1].T, x[2].T
+    y = x[: 3 * n * nt].reshape(3, nt, n)
+    if not zw:
+        return y[0].T, y[1].T, y[2].T
+    zs, at = [], 3 * n * nt
+    for r in zw:
+        zs.append(x[at: at + nt * r].reshape(nt, r).T)
+        at += nt * r
+    return y[0].T, y[1].T, y[2].T, zs
 
 
 def _cond_ok(spec):
@@ -660,6 +791,17 @@ def _cond_ok(spec):
     A = M[ix] / h / h + B[ix] / (2 * h) + K[ix] / 3
     try:
         return np.linalg.cond(A) <= 1e6
+    except np.linalg.LinAlgError:
+        return False
+
+
+def _rf_cond_ok(spec):
+    _, rf = _parts(spec)
+    if not rf:
+        return True
+    K = _mats(spec)[2]
+    try:
+        return np.linalg.cond(K[np.ix_(rf, rf)]) <= 1e6
     except np.linalg.LinAlgError:
         return False
 
@@ -678,7 +820,10 @@ def _newmark_cases(ctx):
         {"mnone": True, "form": "diag"}, {"rigid": True, "form": "diag", "mnone": False, "massless": False},
         {"quasistatic": True, "form": "diag", "mnone": False, "terms": False, "rigid": False, "nt": 12},
         {"quasistatic": True, "form": "full", "mnone": False, "terms": False, "rigid": False},
-    ] + [{"terms": True, "kind": kk, "form": f} for kk in range(4) for f in ("diag", "full")]
+    ] + [{"terms": True, "kind": kk, "form": f} for kk in range(5) for f in ("diag", "full")] + [
+        # nonlinear terms together with an rf partition: the callbacks see the non-rf rows at every step (fix 62d98b6, F63)
+        {"terms": True, "rf_terms": True, "rf": True, "n": 3, "form": f, "mnone": False, "massless": False, "rigid": False,
+         "quasistatic": False} for f in ("diag", "full", "diag", "full")]
     for p in pins:
         cases.append(gen_newmark(rng, p))
     for _ in range(ctx.pick(2000, 12000)):
@@ -698,11 +843,14 @@ def _corr_newmark(ctx):
         if not _cond_ok(spec):
             ctx.skip("newmark: cond(A) > 1e6")
             continue
+        if not _rf_cond_ok(spec):
+            ctx.skip("newmark: cond(k_rf) > 1e6")
+            continue
         lines = _newmark_requests(spec)
         kept.append((spec, len(req), len(lines)))
         req += lines
     rep = drv.ask(req)
-    rfjobs = []
+    rfjobs, zjobs = [], []
     for spec, at, cnt in kept:
         impl = run_newmark(spec)
         n, nt = spec["n"], spec["nt"]
@@ -740,14 +888,22 @@ def _corr_newmark(ctx):
         # the extrapolated displacement De enters the last v and a
         sd = max(sd, float(np.abs(impl["d"][:, -2] + 2 * h * impl["v"][:, -1]).max()))
         if cnt:
-            got = _parse_hist(rep[at], len(nonrf), nt)
+            # the whole tsolve on all n rows (model: tsolveRf - rf rows static, m = None, nonlinear terms via defNonlin)
+            got = _parse_hist(rep[at], n, nt)
             if isinstance(got, str):
                 ctx.disagree("newmark-mx", spec, "history", got[:40])
                 continue
             ok = True
+            if rf:
+                ctx.count("newmark:rf-assembled")
+                sd = max(sd, float(np.abs(impl["d"][rf]).max()))
             for name, arr, sc in (("d", got[0], sd), ("v", got[1], sd / h), ("a", got[2], sd / h / h)):
                 ok = _cmp(ctx, "newmark-" + ("diag" if _is_diag(spec) else "full") + "-" + name, spec, name,
-                          impl[name][nonrf], arr, sc) and ok
+                          impl[name], arr, sc) and ok
+            if spec.get("terms") and rf:
+                ctx.count("newmark:nonlin-with-rf")
+            elif spec.get("terms"):
+                zjobs.append((spec, impl, _zout_request(spec, impl["d"])))
             # scalar instance, DOF by DOF
             for r, i in zip(rep[at + 1: at + cnt], nonrf):
                 g = _parse_hist(r, 1, nt)
@@ -771,6 +927,9 @@ def _corr_newmark(ctx):
         if len(ctx.samples) < 3 and nontriv:
             ctx.sample({"solver": "newmark", "form": spec["form"], "n": n, "nt": nt, "h": h, "rf": rf,
                         "terms": [KINDS[t["kind"]] for t in spec.get("terms") or []], "d_last": impl["d"][:, -1].tolist()})
+    # sol.z: the model's `zOut` evaluated on the implementation's displacement history
+    for (spec, impl, _), r in zip(zjobs, drv.ask([j[2] for j in zjobs])):
+        _z_compare(ctx, "newmark-z", spec, impl.get("z", {}), r)
     for (spec, drf, _), r in zip(rfjobs, drv.ask([j[2] for j in rfjobs])):
         ctx.count("newmark:rf-model")
         if not r.startswith("ok"):
@@ -796,7 +955,10 @@ def _cdf_request(spec, ts):
     F = np.array(spec["F"], float)
     d0 = np.zeros(n) if spec["d0"] is None else np.array(spec["d0"], float)
     v0 = np.zeros(n) if spec["v0"] is None else np.array(spec["v0"], float)
-    return " ".join(["cdfa", str(nn), str(nt), str(spec["order"])] + [_bl(getattr(pc, c)) for c in
+    # `cdfx` = `cdfa` plus the acceleration recovery (`cdfAcc`: invm = 1/m or m = None, full damping = bo + diag b)
+    mpart = ["0"] if spec["m"] is None else ["1", _bl(np.array(spec["m"], float)[nonrf])]
+    return " ".join(["cdfx", str(nn), str(nt), str(spec["order"])] + mpart + [_bl(np.diag(Bfull)[nonrf]),
+                    _bl(np.array(spec["k"], float)[nonrf])] + [_bl(getattr(pc, c)) for c in
                     ("F", "G", "A", "B", "Fp", "Gp", "Ap", "Bp")] + [_bl(bo), _bl(F[nonrf].T),
                                                                    _bl(d0[nonrf]), _bl(v0[nonrf])])
 
@@ -821,17 +983,26 @@ def _cdf_compare(ctx, spec, ts, impl, r, tag=""):
         return False
     x = _unbits(r.split()[1:])
     nn = len(nonrf)
-    if x.size != nn * nn + 2 * nn * nt:
+    if x.size != nn * nn + 3 * nn * nt:
         ctx.disagree("cdf" + tag, spec, "history", "bad-size")
         return False
     al = x[: nn * nn].reshape(nn, nn)
-    x = x[nn * nn:].reshape(2, nt, nn)
+    x = x[nn * nn:].reshape(3, nt, nn)
     sd = max(float(np.abs(impl["d"]).max()), 1e-300)
     sv = max(float(np.abs(impl["v"]).max()), sd / spec["h"] * 1e-3, 1e-300)
     ok = _cmp(ctx, "cdf-alpha" + tag, spec, "alpha", np.asarray(ts.pc.alpha, float), al,
               max(float(np.abs(al).max()), float(np.abs(ts.pc.alpha).max()), 1e-300))
     ok = _cmp(ctx, "cdf-d" + tag, spec, "d", impl["d"][nonrf], x[0].T, sd) and ok
     ok = _cmp(ctx, "cdf-v" + tag, spec, "v", impl["v"][nonrf], x[1].T, sv) and ok
+    # acceleration recovery: a = invm (P - C v - K d); scale = the largest of the three force terms over m
+    mm = np.ones(nn) if spec["m"] is None else np.array(spec["m"], float)[nonrf]
+    Bn = np.array(spec["b"], float)[np.ix_(nonrf, nonrf)]
+    kk = np.array(spec["k"], float)[nonrf]
+    P = np.array(spec["F"], float)[nonrf]
+    terms = [P, Bn @ impl["v"][nonrf], kk[:, None] * impl["d"][nonrf]]
+    sa = max(max(float(np.abs(t / mm[:, None]).max()) for t in terms), 1e-300)
+    ctx.count("cdf:accel-model")
+    ok = _cmp(ctx, "cdf-a" + tag, spec, "a", impl["a"][nonrf], x[2].T, sa) and ok
     return ok
 
 
@@ -853,6 +1024,7 @@ def _corr_cdf(ctx):
         req.append(_cdf_request(spec, ts))
         impls.append((spec, impl, cls, ts))
     rep = drv.ask(req)
+    f2xjobs = []
     for (spec, impl, cls, ts), r in zip(impls, rep):
         n, nt = spec["n"], spec["nt"]
         nonrf, rf = _parts(spec)
@@ -868,11 +1040,47 @@ def _corr_cdf(ctx):
         ctx.count("cdf:alpha-from-model")
         ctx.count("cdf:layout=" + spec.get("layout", "C"))
         _cdf_compare(ctx, spec, ts, impl, r)
+        if spec["order"] == 1 and ctx.evaluations % 3 == 0:
+            f2xjobs.append(_f2x_job(ctx, spec, ts))
         if nt >= 2 and ctx.evaluations % 4 == 0:
             ctx.count("cdf:reused-solver")
             bad = cdf_reuse(spec, cls)
             if bad:
                 ctx.disagree("cdf-reused-solver", spec, {"what": bad[0], "difference": bad[1], "scale": bad[2]}, "the history of a fresh solver object")
+    for job, r in zip(f2xjobs, drv.ask([j[4] for j in f2xjobs])):
+        _f2x_compare(ctx, job, r)
+
+
+def _f2x_job(ctx, spec, ts):
+    """get_f2x(phi, velo) of a cd-as-force solver against the model's `cdfGetF2x` (alpha by the model)"""
+    rng = np.random.default_rng(abs(hash(json.dumps(spec["F"][0][:3]))) % (2**32))
+    n = spec["n"]
+    nonrf, rf = _parts(spec)
+    r = int(rng.integers(1, 4))
+    phi = rng.standard_normal((r, n))
+    pc = ts.pc
+    nn = len(nonrf)
+    bo = np.array(spec["b"], float)[np.ix_(nonrf, nonrf)].copy()
+    bo[np.arange(nn), np.arange(nn)] = 0.0
+    krf = np.array(spec["k"], float)[rf] if rf else np.zeros(0)
+    line = " ".join(x for x in ["f2x", str(nn), str(r), str(len(rf)), _bl(pc.B), _bl(pc.Bp), _bl(bo), _bl(phi[:, nonrf]),
+                                _bl(krf), _bl(phi[:, rf]) if rf else ""] if x != "")
+    return spec, r, np.array(ts.get_f2x(phi, False)), np.array(ts.get_f2x(phi, True)), line
+
+
+def _f2x_compare(ctx, job, rep):
+    spec, r, fd, fv, _ = job
+    ctx.count("cdf:f2x-model")
+    if not rep.startswith("ok"):
+        ctx.disagree("cdf-f2x", spec, "flex", rep[:40])
+        return
+    x = _unbits(rep.split()[1:])
+    if x.size != 2 * r * r:
+        ctx.disagree("cdf-f2x", spec, "flex", "bad-size")
+        return
+    x = x.reshape(2, r, r)
+    for name, impl, mod in (("disp", fd, x[0]), ("velo", fv, x[1])):
+        _cmp(ctx, "cdf-f2x-" + name, spec, "flex", impl, mod, max(float(np.abs(mod).max()), float(np.abs(impl).max()), 1e-300))
 
 
 def _smooth_case(rng, solver, balanced):
@@ -912,9 +1120,9 @@ def _cdf_parse(r, nn, nt):
     if not r.startswith("ok"):
         return None
     x = _unbits(r.split()[1:])
-    if x.size != nn * nn + 2 * nn * nt:
+    if x.size != nn * nn + 3 * nn * nt:
         return None
-    y = x[nn * nn:].reshape(2, nt, nn)
+    y = x[nn * nn:].reshape(3, nt, nn)
     return x[: nn * nn].reshape(nn, nn), y[0].T, y[1].T
 
 
@@ -1014,6 +1222,7 @@ def _corr_sequences(ctx):
         kept.append((spec, len(req)))
         req += lines
     rep = drv.ask(req)
+    zseq = []
     for spec, at in kept:
         res = run_newmark_seq(spec)
         key = json.dumps(spec, sort_keys=True)
@@ -1041,6 +1250,8 @@ def _corr_sequences(ctx):
             if isinstance(got, str):
                 ctx.disagree("newmark-seq-mx", spec, "history (phase %d)" % ip, got[:40])
                 continue
+            if ph["terms"]:
+                zseq.append((spec, pspec, r.get("z", {}), ph["how"], _zout_request(pspec, r["d"])))
             okp = True
             for name, arr, sc in (("d", got[0], sd), ("v", got[1], sd / h), ("a", got[2], sd / h / h)):
                 okp = _cmp(ctx, "newmark-seq-%s-%s" % (ph["how"], name), spec, name, r[name], arr, sc) and okp
@@ -1055,10 +1266,146 @@ def _corr_sequences(ctx):
                                  {"phase": ip, name: float(np.abs(r[name] - fresh[name]).max())}, "the history of a fresh solver object")
                     break
         ctx.case(key, nontrivial=any_nontriv, branch="newmark-seq")
+    for (spec, pspec, zimpl, how, _), r in zip(zseq, drv.ask([j[4] for j in zseq])):
+        _z_compare(ctx, "newmark-seq-z-" + how, pspec, zimpl, r)
+
+
+def _dyadic_ok(x):
+    """is the rational x a finite double?  (odd part of the numerator below 2^53, denominator a power of two, exponent in
+    the normal range)"""
+    if x == 0:
+        return True
+    d = x.denominator
+    if d & (d - 1):
+        return False
+    n = abs(x.numerator)
+    n >>= (n & -n).bit_length() - 1
+    return n.bit_length() <= 53 and d.bit_length() < 900 and abs(x.numerator).bit_length() < 900
+
+
+def gen_exact(rng):
+    """Diagonal system on which EVERY floating-point operation of the solver is exact: h a power of two, k and b
+    multiples of 3 (so that the divisions by 3 are exact), A = m/h^2 + b/2h + k/3 a power of two, forces multiples of
+    3/8, a few steps.  -> spec (solver 'newmark', form 'diag')"""
+    n = int(rng.integers(1, 4))
+    e = int(rng.integers(0, 4))
+    h = 2.0 ** -e
+    nt = int(rng.integers(2, 7))
+    m, b, k = np.zeros(n), np.zeros(n), np.zeros(n)
+    for i in range(n):
+        b3 = int(rng.integers(0, 9)) / 4.0
+        k3 = int(rng.integers(0, 9)) / 4.0
+        base = 3 * b3 / (2 * h) + k3
+        A = 2.0 ** math.ceil(math.log2(max(base, 0.125))) * float(rng.choice([1, 1, 2, 4]))
+        if A <= base and rng.random() < 0.5:
+            A *= 2
+        m[i] = (A - base) * h * h  # 0 = massless row (then A = base must be a power of two: it is)
+        b[i], k[i] = 3 * b3, 3 * k3
+        if m[i] == 0 and base == 0:
+            m[i] = h * h
+    F = 3.0 * rng.integers(-8, 9, (n, nt)) / 8.0
+    d0 = rng.integers(-8, 9, n) / 4.0
+    v0 = rng.integers(-8, 9, n) / 4.0
+    return {"solver": "newmark", "h": h, "form": "diag", "tags": ["exact-dyadic"], "mnone": False, "m": m.tolist(),
+            "b": b.tolist(), "k": k.tolist(), "F": F.tolist(), "d0": d0.tolist(), "v0": v0.tolist(), "rf": None,
+            "terms": [], "nt": nt, "n": n, "layout": "C"}
+
+
+def _exact_history(m, b, k, h, F, d0, v0):
+    """the documented recurrence of one diagonal DOF in exact rational arithmetic, operation by operation as the code
+    orders them -> (d, v, a, representable) ; representable = every intermediate value is a double"""
+    from fractions import Fraction as Fr
+
+    ok = [True]
+    track = [0, Fr(0)]  # largest denominator exponent, largest magnitude
+
+    def c(x):
+        if not _dyadic_ok(x):
+            ok[0] = False
+        else:
+            track[0] = max(track[0], x.denominator.bit_length() - 1)
+            track[1] = max(track[1], abs(x))
+        return x
+
+    m, b, k, h, d0, v0 = (Fr(x) for x in (m, b, k, h, d0, v0))
+    F = [Fr(x) for x in F]
+    nt = len(F)
+    sqh, h2 = c(h * h), c(2 * h)
+    mterm = c(m / sqh)
+    A = c(c(c(mterm + c(b / h2))) + c(k / 3))
+    A1 = c(c(2 * mterm) - c(k / 3))
+    A0 = c(c(c(b / h2) - c(k / 3)) - mterm)
+    a1, a0 = c(A1 / A), c(A0 / A)
+    f = [c(x / 3) for x in F]
+    um = c(d0 - c(v0 * h))
+    f[0] = c(c(c(k * d0) + c(b * v0)) / 3)
+    f = [c(x / A) for x in f]
+    fm = c(c(c(k * um) + c(b * v0)) / c(3 * A))
+    d = [d0, c(c(c(c(c(f[1] + f[0]) + fm) + c(a1 * d0))) + c(a0 * um))]
+    for j in range(2, nt):
+        d.append(c(c(c(c(f[j] + f[j - 1]) + f[j - 2]) + c(a1 * d[j - 1])) + c(a0 * d[j - 2])))
+    de = c(c(c(3 * f[-1]) + c(a1 * d[-1])) + c(a0 * d[-2]))
+    ext = [um] + d + [de]
+    v = [v0] + [c(c(ext[j + 2] - ext[j]) / h2) for j in range(1, nt)]
+    a = [c(c(c(ext[j + 2] - c(2 * ext[j + 1])) + ext[j]) / sqh) for j in range(nt)]
+    # head-room: all values are multiples of one quantum 2^-Q and small against 2^53 quanta, so the sums are exact in ANY
+    # order (a re-ordered but equivalent implementation gives the same bits)
+    if ok[0] and not track[1] * 2 ** track[0] * 64 < 2**53:
+        ok[0] = False
+    return d, v, a, ok[0]
+
+
+def _corr_exact(ctx):
+    """EXACT tie on dyadic inputs: cases on which no floating-point operation rounds (decided by an independent rational
+    evaluation, never by the implementation's output); there the Float model, the implementation and the rational
+    history must agree bit for bit."""
+    from fractions import Fraction as Fr
+
+    rng = ctx.np_rng(1731)
+    drv = ctx.driver("C17")
+    kept, req = [], []
+    for _ in range(ctx.pick(400, 3000)):
+        spec = gen_exact(rng)
+        n, nt, h = spec["n"], spec["nt"], spec["h"]
+        F = np.array(spec["F"])
+        ex = [_exact_history(spec["m"][i], spec["b"][i], spec["k"][i], h, F[i], spec["d0"][i], spec["v0"][i]) for i in range(n)]
+        if not all(e[3] for e in ex):
+            ctx.skip("exact: an intermediate value is not a double (mantissa overflow)")
+            continue
+        lines = _newmark_requests(spec)[1:]
+        kept.append((spec, ex, len(req)))
+        req += lines
+    rep = drv.ask(req)
+    for spec, ex, at in kept:
+        n, nt = spec["n"], spec["nt"]
+        impl = run_newmark(spec)
+        key = json.dumps(spec, sort_keys=True)
+        ctx.case(key, nontrivial=bool(np.any(impl.get("d", 0))), branch="newmark:exact-dyadic")
+        if "error" in impl:
+            ctx.disagree("newmark-exact", spec, impl["error"], "a history")
+            continue
+        for i in range(n):
+            g = _parse_hist(rep[at + i], 1, nt)
+            if isinstance(g, str):
+                ctx.disagree("newmark-exact", spec, "history", g[:40])
+                break
+            bad = None
+            for name, arr, exact in (("d", g[0][0], ex[i][0]), ("v", g[1][0], ex[i][1]), ("a", g[2][0], ex[i][2])):
+                for j in range(nt):
+                    vi, vm = float(impl[name][i, j]), float(arr[j])
+                    if not (Fr(vi) == exact[j] and Fr(vm) == exact[j]):
+                        bad = (name, j, vi, vm, float(exact[j]))
+                        break
+                if bad:
+                    break
+            if bad:
+                ctx.disagree("newmark-exact-" + bad[0], spec, {bad[0]: bad[2], "at": [i, bad[1]], "exact": bad[4]}, {bad[0]: bad[3]})
+                break
 
 
 def correspondence(ctx):
     _corr_newmark(ctx)
+    _corr_exact(ctx)
     _corr_cdf(ctx)
     _corr_halving(ctx)
     _corr_sequences(ctx)
@@ -1075,6 +1422,10 @@ def correspondence(ctx):
         # solver objects re-used (call sequences on one object)
         "newmark-seq", "newmark-seq:fresh-arrays", "newmark-seq:shared-array", "newmark-seq:inplace", "newmark-seq:same-dict",
         "newmark-seq:tsolve-only", "newmark-seq:clear", "newmark-seq:tsolve-only-first", "cdf:reused-solver",
+        # second extension: exact (bitwise) dyadic stream, whole-tsolve model with the rf rows assembled, sol.z through the
+        # model's zOut, two-output callbacks, callbacks with an rf partition, cdf acceleration and get_f2x through the model
+        "newmark:exact-dyadic", "newmark:rf-assembled", "newmark:z-model", "newmark:nonlin-pair", "newmark:nonlin-with-rf",
+        "cdf:accel-model", "cdf:f2x-model",
     ])
 
 
@@ -1120,6 +1471,9 @@ def oracle_newmark(ctx, spec, impl=None, report=None, suffix=""):
             fail("newmark-rf-static-" + form, "rf rows are not the static solution k_rf d = F, v = a = 0", float(np.abs(res).max()), 0.0)
     if not nonrf:
         return
+    if rf and spec.get("terms"):
+        # nonlinear terms together with an rf partition: judged by oracle_nonlin_rf (regression guard for F63)
+        return
     ix = np.ix_(nonrf, nonrf)
     M, B, K = M[ix], B[ix], K[ix]
     F = Fall[nonrf].copy()
@@ -1140,12 +1494,12 @@ def oracle_newmark(ctx, spec, impl=None, report=None, suffix=""):
     for i, t in enumerate(terms):
         f = _zfun(t)
         for j in range(nt):
-            z = f(Dext if j == 0 else D, j, h)[0]
-            zi = impl["z"]["t%d" % i][0, j]
-            if abs(z - zi) > 1e-9 * max(abs(z), abs(zi), 1e-300):
-                fail("newmark-nonlin-z-" + KINDS[t["kind"]], "sol.z is not func(d, j, h) on the returned history", [j, float(zi)], float(z))
+            z = np.asarray(f(Dext if j == 0 else D, j, h), float)
+            zi = np.asarray(impl["z"]["t%d" % i][:, j], float)
+            if z.shape != zi.shape or np.abs(z - zi).max() > 1e-9 * max(np.abs(z).max(), np.abs(zi).max(), 1e-300):
+                fail("newmark-nonlin-z-" + KINDS[t["kind"]], "sol.z is not func(d, j, h) on the returned history", [j, zi.tolist()], z.tolist())
                 return
-            N[:, j] += np.array(t["T"], float) * z
+            N[:, j] += np.array(t["T"], float).reshape(nn, -1) @ z
     scale = max(np.abs(A @ D).max(), np.abs(A @ um).max(), np.abs(A1 @ D).max(), np.abs(A0 @ D).max(), np.abs(F).max(), np.abs(N).max(), 1e-300)
     rtol = 2e-8
 
@@ -1456,8 +1810,347 @@ def oracle_newmark_seq(ctx, spec):
             return
 
 
+
+# ---------------------------------------------------------------------------------------
+# oracles added with the second extension (all on the public API, never through the Lean model)
+
+
+def _analytic(spec):
+    """scalar test problem with a closed-form solution u = al sin(w t) + be cos(w t) + c0 + c1 t, f = m u'' + b u' + k u"""
+    m, b, k, al, be, c0, c1, w = (spec[x] for x in ("m", "b", "k", "al", "be", "c0", "c1", "w"))
+    u = lambda t: al * np.sin(w * t) + be * np.cos(w * t) + c0 + c1 * t
+    u1 = lambda t: w * (al * np.cos(w * t) - be * np.sin(w * t)) + c1
+    u2 = lambda t: -w * w * (al * np.sin(w * t) + be * np.cos(w * t))
+    f = lambda t: m * u2(t) + b * u1(t) + k * u(t)
+    amp = abs(al) + abs(be)
+    return u, u1, u2, f, w**3 * amp, w**4 * amp, m * w**4 * amp + b * w**3 * amp + k * w * w * amp
+
+
+def oracle_proved_bounds(ctx, spec):
+    """The explicit error bounds of newmark_converges_scalar / newmark_velocity_converges_scalar /
+    newmark_accel_converges_scalar / newmark_initial_accel_error_scalar / newmark_last_step_converges_scalar evaluated in
+    numpy for a problem with a closed-form solution: the REAL code's errors must lie below them (a bound that is not met
+    means the code no longer is the scheme the theorems are about), and v_0 must be the given initial velocity."""
+    from pyyeti import ode
+
+    m, b, k, T = spec["m"], spec["b"], spec["k"], spec["T"]
+    u, u1, u2, f, M3, M4, MF = _analytic(spec)
+    mu, rho = math.sqrt(m), math.sqrt(m + k * T * T / 3)
+    E1 = (b * T / 12 + m / 6) * rho / m**2 + 1 / (3 * mu)
+    E2 = (m * M3 / 2 + b * M3 * T / 4) * rho / m + T * (5 * m * M4 / 12 + b * M3 / 2) / mu
+    delta = abs(f(0.0) - (k * u(0.0) + b * u1(0.0)))
+    for h in spec["hs"]:
+        n = int(math.floor(T / h + 1e-9)) - 2  # nt = n + 2 steps, (n + 2) h <= T
+        if n < 1:
+            continue
+        nt = n + 2
+        t = np.arange(nt) * h
+        sol = ode.SolveNewmark(np.array([m]), np.array([b]), np.array([k]), h).tsolve(f(t)[None, :], np.array([u(0.0)]), np.array([u1(0.0)]))
+        d, v, a = sol.d[0], sol.v[0], sol.a[0]
+        R = E1 * delta * h + E2 * h * h
+        Ct = 5 * m * M4 / 12 + b * M3 / 2
+        Cg = Ct + MF / 3
+        Rp = R + h * (Cg * h * h) / mu
+        slack = 1e-9 * max(np.abs(d).max(), 1e-300)
+        checks = [
+            ("displacement", np.abs(d - u(t)).max(), T / mu * R),
+            ("velocity-interior", np.abs(v[1:-1] - u1(t[1:-1])).max() if nt > 2 else 0.0, R / mu + M3 * h * h / 6),
+            ("velocity-last", abs(v[-1] - u1(t[-1])), (Rp + R) / (2 * mu) + M3 * h * h / 6),
+            ("acceleration-first-interior", abs(a[1] - u2(t[1])), (Ct * h * h + delta / 3 + (b + k * T) * R / mu) / m + M4 * h * h / 12),
+            ("acceleration-interior", np.abs(a[2:-1] - u2(t[2:-1])).max() if nt > 3 else 0.0, (Ct * h * h + (b + k * T) * R / mu) / m + M4 * h * h / 12),
+            ("acceleration-last", abs(a[-1] - u2(t[-1])), (Cg * h * h + b * (Rp + R) / (2 * mu) + k * (T / mu * R + h / mu * Rp)) / m + M4 * h * h / 12),
+            ("acceleration-initial", abs(a[0] - u2(0.0)), abs(u2(0.0)) * (0.5 + abs(b * h / 12 - m / 6) / m) + (2 / 3 * M3 * h + b * M3 * h * h / (4 * m))),
+        ]
+        if v[0] != u1(0.0):
+            ctx.fail("newmark-initial-velocity-not-v0", "v[:, 0] is not the given initial velocity", spec, float(v[0]), float(u1(0.0)))
+            return
+        for name, err, bound in checks:
+            ctx.count("oracle:proved-bound-" + name)
+            if not err <= bound * (1 + 1e-9) + slack / (h * h if name.startswith("acc") else (h if name.startswith("vel") else 1.0)):
+                ctx.fail("newmark-exceeds-proved-bound-" + name, "the error of the real code exceeds the bound proved for the documented scheme",
+                         dict(spec, h_failed=h), float(err), "<= %.6e" % bound)
+                return
+
+
+def gen_analytic(rng, balanced):
+    m = float(rng.uniform(0.5, 2.0))
+    w0 = 2 * np.pi * rng.uniform(0.5, 2.0)
+    k = m * w0 * w0
+    b = 2 * float(rng.uniform(0.0, 0.3)) * m * w0
+    w = float(2 * np.pi * rng.uniform(0.3, 1.5))
+    al, be, c0, c1 = (float(x) for x in rng.standard_normal(4))
+    if balanced:
+        al, be = float(rng.standard_normal()) , 0.0  # u''(0) = -w^2 be = 0: F(0) = k u0 + b v0
+    return {"solver": "newmark-proved-bounds", "m": m, "b": b, "k": float(k), "al": al, "be": be, "c0": c0, "c1": c1, "w": w, "T": 1.0,
+            "balanced": bool(balanced), "hs": [1.0 / 50, 1.0 / 200]}
+
+
+def oracle_va_orders(ctx, spec):
+    """Observed orders of the returned velocities and accelerations (scalar closed-form problem), balanced start-up: second
+    order in the interior AND over the last tenth of the record incl. the end point (the end point uses the extrapolated
+    step, not a one-sided difference), first order for a_0.  Unbalanced runs are recorded, not judged."""
+    from pyyeti import ode
+
+    m, b, k, T = spec["m"], spec["b"], spec["k"], spec["T"]
+    u, u1, u2, f, M3, M4, MF = _analytic(spec)
+    errs = {"v-interior": [], "v-last": [], "a-interior": [], "a-last": [], "a-initial": []}
+    hs = [T / 80, T / 160, T / 320]
+    for h in hs:
+        nt = int(round(T / h)) + 1
+        t = np.arange(nt) * h
+        sol = ode.SolveNewmark(np.array([m]), np.array([b]), np.array([k]), h).tsolve(f(t)[None, :], np.array([u(0.0)]), np.array([u1(0.0)]))
+        v, a = sol.v[0], sol.a[0]
+        errs["v-interior"].append(float(np.abs(v[1:-1] - u1(t[1:-1])).max()))
+        w = max(nt // 10, 2)  # the last tenth of the record, end point included (a single instant is not monotone in h)
+        errs["v-last"].append(float(np.abs(v[-w:] - u1(t[-w:])).max()))
+        errs["a-interior"].append(float(np.abs(a[2:-1] - u2(t[2:-1])).max()))
+        errs["a-last"].append(float(np.abs(a[-w:] - u2(t[-w:])).max()))
+        errs["a-initial"].append(float(abs(a[0] - u2(0.0))))
+    bal = spec["balanced"]
+    # unbalanced start-up: the first-order error component oscillates in time, so the error at ONE instant (the last step)
+    # is not monotone in h; only the maxima over time are judged there
+    # (unbalanced runs are recorded only: near t = 0 the first-order component is not monotone in h at these step sizes;
+    # they are judged quantitatively by oracle_proved_bounds)
+    need = {"v-interior": 1.6 if bal else None, "v-last": 1.6 if bal else None, "a-interior": 1.6 if bal else None,
+            "a-last": 1.6 if bal else None, "a-initial": 0.5 if bal else None}
+    scale = {"v": max(abs(u1(0.0)), spec["w"] * (abs(spec["al"]) + abs(spec["be"])), 1e-12),
+             "a": max(spec["w"] ** 2 * (abs(spec["al"]) + abs(spec["be"])), 1e-12)}
+    row = {"balanced": bal}
+    for name, e in errs.items():
+        ctx.count("oracle:va-order-" + name)
+        row[name] = [round(math.log2(max(e[i], 1e-300) / max(e[i + 1], 1e-300)), 3) for i in range(2)]
+        if need[name] is None:
+            continue
+        order, ok = _order_verdict(e, 1e-8 * scale[name[0]], need[name])
+        if not ok:
+            ctx.fail("newmark-%s-order-below-%s-%s" % (name, "2" if need[name] > 1 else "1", "balanced-start" if bal else "unbalanced-start"),
+                     "the error of the returned %s does not shrink at the proved rate when h is halved" % name,
+                     dict(spec, hs=hs), {"errors": e, "overall_order": order}, "overall order >= %.2f" % need[name])
+            return
+    ctx.extra.setdefault("observed_orders_va", []).append(row)
+
+
+def oracle_initial_accel_defect(ctx, spec):
+    """newmark_initial_accel_defect on the API: on u = c0 + c1 t + c2 t^2 with the matching force the first returned
+    acceleration satisfies A h^2 (a_0 - 2 c2) = -c2 (4 m + b h + k h^2) / 3."""
+    from pyyeti import ode
+
+    m, b, k, h, c0, c1, c2 = (spec[x] for x in ("m", "b", "k", "h", "c0", "c1", "c2"))
+    t = np.arange(4) * h
+    uq = c0 + c1 * t + c2 * t * t
+    f = m * 2 * c2 + b * (c1 + 2 * c2 * t) + k * uq
+    sol = ode.SolveNewmark(np.array([m]), np.array([b]), np.array([k]), h).tsolve(f[None, :], np.array([c0]), np.array([c1]))
+    A = m / h**2 + b / (2 * h) + k / 3
+    lhs = A * h * h * (sol.a[0, 0] - 2 * c2)
+    rhs = -c2 * (4 * m + b * h + k * h * h) / 3
+    ctx.count("oracle:initial-accel-defect")
+    sc = max(abs(rhs), abs(A * h * h * 2 * c2), A * h * h * abs(sol.a[0, 0]), 1e-300)
+    if not abs(lhs - rhs) <= 1e-9 * sc:
+        ctx.fail("newmark-initial-acceleration-not-central-difference-with-u-minus-1",
+                 "a_0 on a quadratic solution is not (d_1 - 2 d_0 + u_-1) / h^2 of the documented start-up", spec, float(lhs), float(rhs))
+
+
+def oracle_modal(ctx, spec):
+    """newmark_modal_decomposition on the API: M = Psi diag(m) Phi^-1 etc.; SolveNewmark(M, B, K) with d0 = Phi q0,
+    v0 = Phi p0, F = Psi phi equals Phi applied to the scalar runs, mode by mode."""
+    from pyyeti import ode
+
+    mm, bb, kk = (np.array(spec[x], float) for x in ("mm", "bb", "kk"))
+    Phi = np.array(spec["Phi"], float)
+    h, nt = spec["h"], spec["nt"]
+    Psi = np.linalg.inv(Phi).T  # symmetric case: M = Psi diag(m) Psi^T
+    Pi = np.linalg.inv(Phi)
+    M, B, K = Psi @ np.diag(mm) @ Pi, Psi @ np.diag(bb) @ Pi, Psi @ np.diag(kk) @ Pi
+    q0, p0 = np.array(spec["q0"], float), np.array(spec["p0"], float)
+    phi = np.array(spec["phi"], float)
+    full = ode.SolveNewmark(M, B, K, h).tsolve(Psi @ phi, Phi @ q0, Phi @ p0)
+    ctx.count("oracle:modal-decomposition")
+    if getattr(ode.SolveNewmark(M, B, K, h), "unc", False):
+        return
+    modal = ode.SolveNewmark(mm, bb, kk, h).tsolve(phi, q0, p0)
+    for name in "dva":
+        want = Phi @ getattr(modal, name)
+        got = getattr(full, name)
+        sc = max(float(np.abs(want).max()), 1e-300)
+        if not np.abs(got - want).max() <= 1e-7 * sc * max(1.0, np.linalg.cond(Phi)):
+            ctx.fail("newmark-coupled-run-is-not-modal-superposition", "SolveNewmark on modally damped full matrices differs from Phi times the scalar runs (%s)" % name,
+                     spec, float(np.abs(got - want).max()), "<= 1e-7 * %.3e" % sc)
+            return
+
+
+def gen_modal(rng):
+    n = int(rng.integers(2, 5))
+    h = float(10 ** rng.uniform(-2.5, -0.5))
+    w = 10 ** rng.uniform(-1, 0.5, n) / h
+    mm = 10 ** rng.uniform(-0.5, 0.5, n)
+    zeta = rng.choice([0.0, 0.02, 0.3, 1.0], n)
+    Phi = np.eye(n) + 0.3 * rng.standard_normal((n, n))
+    nt = int(rng.integers(3, 30))
+    return {"solver": "newmark-modal", "mm": mm.tolist(), "bb": (2 * zeta * mm * w).tolist(), "kk": (mm * w * w).tolist(),
+            "Phi": Phi.tolist(), "h": h, "nt": nt, "q0": rng.standard_normal(n).tolist(), "p0": (rng.standard_normal(n) * w).tolist(),
+            "phi": (rng.standard_normal((n, nt)) * (mm * w * w)[:, None]).tolist()}
+
+
+def oracle_cdf_f2x(ctx, spec):
+    """cdf_f2x_is_step_sensitivity on the API: get_f2x(phi) @ fx is the change of phi @ d[:, 1] (velo: of phi @ v[:, 1]) when
+    phi.T @ fx is added to the force at the end of the first step (order 1)."""
+    from pyyeti import ode
+
+    if spec["order"] != 1 or spec["nt"] < 2:
+        return
+    rng = np.random.default_rng(spec["n"] * 7919 + spec["nt"])
+    n = spec["n"]
+    r = 2
+    phi = rng.standard_normal((r, n))
+    fx = rng.standard_normal(r)
+    ts, s0 = run_cdf(spec, "SolveCDF")
+    if not getattr(ts, "cdforces", False):
+        return
+    F = np.array(spec["F"], float)
+    scale_f = max(float(np.abs(F).max()), 1.0)
+    F2 = F.copy()
+    F2[:, 1] += phi.T @ fx * scale_f
+    _, s1 = run_cdf(dict(spec, F=F2.tolist()), "SolveCDF")
+    ctx.count("oracle:cdf-f2x")
+    for velo, name in ((False, "d"), (True, "v")):
+        flex = np.array(ts.get_f2x(phi, velo))
+        want = phi @ (s1[name][:, 1] - s0[name][:, 1])
+        got = flex @ fx * scale_f
+        sc = max(float(np.abs(want).max()), float(np.abs(got).max()), 1e-9 * float(np.abs(phi @ s0[name][:, 1]).max()), 1e-300)
+        if not np.abs(got - want).max() <= 1e-6 * sc:
+            ctx.fail("cdf-f2x-is-not-the-step-sensitivity-" + ("velo" if velo else "disp"),
+                     "get_f2x(phi) @ f differs from the change of the first step when phi.T f is added to P_1", spec,
+                     float(np.abs(got - want).max()), "<= 1e-6 * %.3e" % sc)
+            return
+
+
+def oracle_cdf_two_dof(ctx, spec):
+    """cdf_stable_two_dof on the API: two identical DOF with k = 0, diagonal damping b, coupled by C_od = [[0, c], [c, 0]],
+    zero force: the combinations v1 + v2 and v1 - v2 are multiplied per step by (Gp - Ap c)/(1 + Bp c) and
+    (Gp + Ap c)/(1 - Bp c); the coefficients satisfy the hypotheses of the theorem (0 <= Ap <= Bp, (Ap + Bp) b = 1 - Gp,
+    0 < Gp < 1), so |c| < b decays and c >= b does not."""
+    from pyyeti import ode
+
+    m, b, c, h, nt = (spec[x] for x in ("m", "b", "c", "h", "nt"))
+    ts = ode.SolveCDF(np.array([m, m]), np.array([[b, c], [c, b]]), np.zeros(2), h)
+    ctx.count("oracle:cdf-two-dof")
+    if not getattr(ts, "cdforces", False):
+        ctx.fail("cdf-not-engaged", "SolveCDF does not use the cd-as-force solver for coupled damping", spec, False, True)
+        return
+    pc = ts.pc
+    Gp, Ap, Bp = float(pc.Gp[0]), float(pc.Ap[0]), float(pc.Bp[0])
+    hyp = (0 < Gp < 1) and (0 <= Ap <= Bp * (1 + 1e-12)) and abs((Ap + Bp) * b - (1 - Gp)) <= 1e-9
+    if not hyp:
+        ctx.fail("cdf-two-dof-coefficients-outside-hypotheses", "get_su_coef coefficients of a damped k = 0 mode violate 0 <= Ap <= Bp, (Ap + Bp) b = 1 - Gp",
+                 spec, [Gp, Ap, Bp], "0 < Gp < 1, 0 <= Ap <= Bp, (Ap + Bp) b = 1 - Gp")
+        return
+    v0 = np.array(spec["v0"], float)
+    sol = ts.tsolve(np.zeros((2, nt)), np.zeros(2), v0)
+    sp, sm = sol.v[0] + sol.v[1], sol.v[0] - sol.v[1]
+    rp, rm = (Gp - Ap * c) / (1 + Bp * c), (Gp + Ap * c) / (1 - Bp * c)
+    for name, seq, rho in (("sum", sp, rp), ("difference", sm, rm)):
+        want = seq[0] * rho ** np.arange(nt)
+        sc = max(float(np.abs(want).max()), 1e-300)
+        if not np.abs(seq - want).max() <= 1e-8 * sc:
+            ctx.fail("cdf-two-dof-velocity-%s-not-geometric" % name, "the velocity combination is not multiplied by the proved factor each step",
+                     spec, float(np.abs(seq - want).max()), "<= 1e-8 * %.3e" % sc)
+            return
+    if abs(c) < b and not (abs(rp) < 1 and abs(rm) < 1):
+        ctx.fail("cdf-two-dof-unstable-for-diagonally-dominant-damping", "|c| < b but an amplification factor is not below one", spec, [rp, rm], "< 1")
+
+
+def oracle_nonlin_rf(ctx, spec):
+    """Regression guard for F63 (repaired in /repo 62d98b6).  Nonlinear terms together with an rf partition: the documented
+    start-up A u_1 = (F_1 + F_0' + F_-1)/3 + N_0 + A1 u_0 + A0 u_-1 with N_0 = T func(D, 0, h) evaluated on the SAME array
+    (rows of the non-rf equations) that the callbacks see at every later step, and the non-rf solution must not depend on
+    where the rf equation sits."""
+    from pyyeti import ode
+
+    m, b, k = (np.array(spec[x], float) for x in "mbk")
+    n, h, rf, p, c = spec["n"], spec["h"], spec["rf"], spec["p"], spec["c"]
+    nonrf = [i for i in range(n) if i not in rf]
+    nn = len(nonrf)
+    F = np.array(spec["F"], float)
+    d0, v0 = np.array(spec["d0"], float), np.array(spec["v0"], float)
+    shapes = []
+
+    def func(d, j, hh):
+        shapes.append(list(d.shape))
+        return np.array([c * d[p, j] ** 3])
+
+    T = np.zeros((nn, 1))
+    T[p, 0] = 1.0
+    ts = ode.SolveNewmark(m, b, k, h, rf=rf)
+    ts.def_nonlin({"cubic": (func, T)})
+    sol = ts.tsolve(F, d0, v0)
+    ctx.count("oracle:nonlin-with-rf")
+    D = sol.d[nonrf]
+    mm, bb, kk = m[nonrf], b[nonrf], k[nonrf]
+    A = mm / h**2 + bb / (2 * h) + kk / 3
+    A1 = 2 * mm / h**2 - kk / 3
+    A0 = -mm / h**2 + bb / (2 * h) - kk / 3
+    um = d0[nonrf] - h * v0[nonrf]
+    F0 = kk * d0[nonrf] + bb * v0[nonrf]
+    Fm = kk * um + bb * v0[nonrf]
+    N0 = T[:, 0] * (c * d0[nonrf][p] ** 3)
+    res = A * D[:, 1] - ((F[nonrf, 1] + F0 + Fm) / 3 + N0 + A1 * d0[nonrf] + A0 * um)
+    sc = max(float(np.abs(A * D[:, 1]).max()), float(np.abs(N0).max()), float(np.abs(F[nonrf]).max()), 1e-300)
+    if not np.abs(res).max() <= 2e-8 * sc:
+        fam = FIXED_F63 if min(rf) < max(nonrf) else FIXED_F63.replace("leading", "trailing")
+        ctx.fail(fam, "with an rf partition the callbacks get the full-size array d at step 0 and d[nonrf] afterwards: N_0 is evaluated on another row than N_j",
+                 spec, {"residual": float(np.abs(res).max()), "array shapes seen by the callback": shapes[:3]}, "<= 2e-8 * %.3e" % sc)
+        return
+    # `nonlin_rf_placement_irrelevant` on the API: the same physical system with the rf row moved to the other end gives the
+    # same non-rf solution
+    perm = nonrf + rf if min(rf) < max(nonrf) else rf + nonrf
+    rf2 = [perm.index(i) for i in rf]
+    ts2 = ode.SolveNewmark(m[perm], b[perm], k[perm], h, rf=rf2)
+    ts2.def_nonlin({"cubic": (func, T)})
+    sol2 = ts2.tsolve(F[perm], d0[perm], v0[perm])
+    nonrf2 = [perm.index(i) for i in nonrf]
+    dif = float(np.abs(sol2.d[nonrf2] - D).max())
+    if not dif <= 1e-9 * max(float(np.abs(D).max()), 1e-300):
+        ctx.fail("newmark-nonlin-rf-placement-changes-the-non-rf-solution", "moving the rf equation to the other end of the DOF order changes the solution of the other equations",
+                 spec, dif, "<= 1e-9 * %.3e" % float(np.abs(D).max()))
+
+
+def gen_nonlin_rf(rng, leading):
+    n = 3
+    h = float(10 ** rng.uniform(-2, -1))
+    w = 10 ** rng.uniform(-0.5, 0.3, n) / h
+    m = 10 ** rng.uniform(-0.3, 0.3, n)
+    k = m * w * w
+    rf = [0] if leading else [n - 1]
+    return {"solver": "newmark-nonlin-rf", "n": n, "h": h, "m": m.tolist(), "b": (0.04 * m * w).tolist(), "k": k.tolist(), "rf": rf,
+            "p": 0, "c": float(0.3 * k[1 if leading else 0]), "F": (rng.standard_normal((n, 5)) * k[:, None]).tolist(),
+            "d0": (0.5 + rng.random(n)).tolist(), "v0": (rng.standard_normal(n) * w).tolist()}
+
+
+def oracle_entry_points(ctx):
+    """SolveNewmark has no generator and no get_f2x (the base class raises NotImplementedError): recorded, not judged."""
+    from pyyeti import ode
+
+    ts = ode.SolveNewmark(np.array([1.0]), np.array([0.1]), np.array([4.0]), 0.1)
+    out = {}
+    for name in ("generator", "get_f2x"):
+        try:
+            getattr(ts, name)()
+            out[name] = "implemented"
+        except NotImplementedError:
+            out[name] = "NotImplementedError"
+        except TypeError:
+            out[name] = "implemented (takes arguments)"
+    ctx.extra["solvenewmark_entry_points"] = out
+
+
 def _run_spec(ctx, spec):
     s = spec.get("solver")
+    extra = {"newmark-proved-bounds": oracle_proved_bounds, "newmark-va-orders": oracle_va_orders,
+             "newmark-initial-accel": oracle_initial_accel_defect, "newmark-modal": oracle_modal,
+             "cdf-two-dof": oracle_cdf_two_dof, "newmark-nonlin-rf": oracle_nonlin_rf}
+    if s in extra:
+        extra[s](ctx, spec)
+        return
     if s == "newmark-seq":
         oracle_newmark_seq(ctx, spec)
     elif s == "newmark":
@@ -1549,6 +2242,29 @@ def search(ctx, hints):
     for _ in range(ctx.pick(150, 1000)):
         oracle_bounded(ctx, rng)
         ctx.count("oracle:newmark-bounded")
+    # second extension: proved bounds on the real code, orders of v and a, initial-acceleration defect, modal superposition,
+    # get_f2x as step sensitivity, the 2-DOF stability test problem, callbacks with an rf partition
+    rng2 = ctx.np_rng(1741)
+    for i in range(ctx.pick(24, 160)):
+        oracle_proved_bounds(ctx, gen_analytic(rng2, balanced=bool(i % 2)))
+    for i in range(ctx.pick(10, 60)):
+        oracle_va_orders(ctx, dict(gen_analytic(rng2, balanced=bool(i % 2)), solver="newmark-va-orders"))
+    for _ in range(ctx.pick(40, 300)):
+        oracle_initial_accel_defect(ctx, {"solver": "newmark-initial-accel", "m": float(rng2.uniform(0.2, 3)), "b": float(rng2.uniform(0, 2)),
+                                          "k": float(rng2.uniform(0, 50)), "h": float(10 ** rng2.uniform(-2, 0)),
+                                          "c0": float(rng2.standard_normal()), "c1": float(rng2.standard_normal()), "c2": float(rng2.standard_normal())})
+    for _ in range(ctx.pick(60, 400)):
+        oracle_modal(ctx, gen_modal(rng2))
+    for _ in range(ctx.pick(60, 400)):
+        oracle_cdf_f2x(ctx, gen_cdf(rng2, {"nt": int(rng2.integers(2, 6))}))
+    for _ in range(ctx.pick(40, 300)):
+        b = float(10 ** rng2.uniform(-1, 1))
+        oracle_cdf_two_dof(ctx, {"solver": "cdf-two-dof", "m": float(10 ** rng2.uniform(-0.5, 0.5)), "b": b,
+                                 "c": float(b * rng2.choice([-0.9, -0.5, 0.3, 0.8, 0.99])), "h": float(10 ** rng2.uniform(-2, 0)),
+                                 "nt": 12, "v0": rng2.standard_normal(2).tolist()})
+    for i in range(ctx.pick(6, 30)):
+        oracle_nonlin_rf(ctx, gen_nonlin_rf(rng2, leading=bool(i % 2)))
+    oracle_entry_points(ctx)
 
 
 def replay(ctx, data):
